@@ -1368,3 +1368,44 @@ def rule_rangemisc(text):
     text, a = _method_to_fn(text, "min", "min_usize", "R-arith", "definition of Ord::min on usize (verified shim)")
     apps += a
     return text, apps
+
+
+def rule_cleanupmisc(text):
+    """failed-batch cleanup one-offs (write_buffer.rs release_allocations .. release_scrubbed_allocations)"""
+    apps = []
+    ws = r"\s*"
+    chain_sorted = (r"let" + ws + r"mut" + ws + r"ordered" + ws + r"=" + ws + r"allocations" + ws + r"\." + ws + r"iter\(\)" + ws +
+                    r"\." + ws + r"filter\(" + ws + r"\|allocation\|" + ws + r"!reservation_is_quarantined\(&allocation\.entry\)" + ws + r"\)" + ws +
+                    r"\." + ws + r"filter_map\(" + ws + r"\|allocation\|" + ws + r"allocation\.sector\.map\(" + ws + r"\|sector\|" + ws + r"\(sector," + ws + r"allocation\)" + ws + r"\)" + ws + r"\)" + ws +
+                    r"\." + ws + r"collect::<Vec<_>>\(\)" + ws + r";" + ws +
+                    r"ordered\.sort_unstable_by_key\(" + ws + r"\|\(sector," + ws + r"_\)\|" + ws + r"\*sector" + ws + r"\)" + ws + r";")
+    chain_ext = (r"allocations" + ws + r"\." + ws + r"iter\(\)" + ws +
+                 r"\." + ws + r"filter\(" + ws + r"\|allocation\|" + ws + r"!reservation_is_quarantined\(&allocation\.entry\)" + ws + r"\)" + ws +
+                 r"\." + ws + r"filter_map\(" + ws + r"\|allocation\|" + ws + r"\{" + ws + r"allocation" + ws + r"\." + ws + r"sector" + ws + r"\." + ws + r"map\(" + ws + r"\|sector\|" + ws + r"\(sector," + ws + r"allocation\.sectors_needed\)" + ws + r"\)" + ws + r"\}" + ws + r"\)" + ws +
+                 r"\." + ws + r"collect::<Vec<_>>\(\)")
+    table = [
+        (chain_sorted, "let ordered = scrubbed_sorted(allocations);", "R-collect",
+         "shim: iter + filter(not quarantined) + filter_map(sector) + collect + sort by sector = the eligible allocations with their head sector, ascending; sorting permutes, so the block total is the eligible total"),
+        (chain_ext, "scrub_extents_of(allocations)", "R-collect",
+         "shim: iter + filter(not quarantined) + filter_map(sector) + collect = the (sector, length) of every eligible allocation"),
+        (r"for" + ws + r"\(_," + ws + r"(\w+)\)" + ws + r"in" + ws + r"&(\w+)\[(\w+)\.\.(\w+)\]" + ws + r"\{",
+         r"let mut gi_: usize = \3; while gi_ < \4 { let \1 = \2[gi_].1; gi_ = gi_ + 1;", "R-foriter", "definition of iterating a sub-slice of pairs by reference as an index loop"),
+        (r"for" + ws + r"(\w+)" + ws + r"in" + ws + r"allocations" + ws + r"\{", r"let mut ai_: usize = 0; while ai_ < allocations.len() { let \1 = &allocations[ai_]; ai_ = ai_ + 1;", "R-foriter",
+         "definition of iterating a slice by reference as an index loop (Verus for-loops have no `continue`)"),
+        (r"let" + ws + r"Some\((\w+)\)" + ws + r"=" + ws + r"(\w+)\.sector" + ws + r"else" + ws + r"\{" + ws + r"continue;" + ws + r"\};",
+         r"let \1 = match \2.sector { Some(s_) => s_, None => { continue; } };", "R-letelse", "definition of let-else with a diverging else branch"),
+        (r"stats" + ws + r"\." + ws + r"disk_usage" + ws + r"\." + ws + r"fetch_sub\(", "stats.disk_usage.fetch_sub(", "R-ws", "whitespace only"),
+    ]
+    for pat, rep, rname, why in table:
+        n = 0
+        while n < 8:
+            n += 1
+            mm = re.search(pat, text)
+            if not mm:
+                break
+            new = mm.expand(rep)
+            if new == text[mm.start():mm.end()]:
+                break
+            apps.append(_app(rname, text, mm.start(), mm.end(), new, why))
+            text = text[:mm.start()] + new + text[mm.end():]
+    return text, apps
